@@ -161,6 +161,9 @@ Ltac rd_eq :=
   | (apply f_equal; first [ rd_arg | rd_list ])
   | rd_arg ].
 
+(* identity between closed rational expressions *)
+Ltac rd_closed := first [ reflexivity | solve [ timeout 30 (unfold Rdiv; ring) ] | solve [ timeout 60 field ] | solve [ timeout 30 lra ] ].
+
 Ltac rd_ring_arg := first [ reflexivity | solve [ timeout 30 (unfold Rdiv; ring) ] ].
 
 Ltac rd_cong_inv :=
